@@ -35,6 +35,10 @@ func (r *scriptedReader) Read(p []byte) (int, error) {
 	r.reads++
 	if r.ended {
 		r.afterEnd++
+		if r.afterEnd > 100000 {
+			// the caller keeps asking a stream that has ended (with the same error every time): it would never return
+			panic(readsAfterEnd{})
+		}
 		return 0, r.end()
 	}
 	if r.pos >= len(r.data) {
@@ -69,6 +73,9 @@ func (r *scriptedReader) Read(p []byte) (int, error) {
 	return n, nil
 }
 
+// readsAfterEnd is the panic value by which a scripted reader gets out of a caller that spins on a finished stream.
+type readsAfterEnd struct{}
+
 func (r *scriptedReader) end() error {
 	if r.endErr != nil {
 		return r.endErr
@@ -81,7 +88,19 @@ func (r *scriptedReader) end() error {
 var bulkLens = []int{0, 1, 2, 3, 5, 16, 255, 256, 4095, 4096, 65535, 65536, 65537, 131075}
 var payloadPool = []string{"\r", "\n", "\r\n", "\x00", "+", "-", ":", "$", "*", "\r\n+OK\r\n", "$-1\r\n", "*0\r\n", ":1\r\n", "abc", "0", "-1"}
 
+// lineLens: lengths of long line-framed values (simple strings, errors) around powers of two and around small
+// multiples of one less than a power of two (a line collected in a fixed scratch area spills exactly there)
+var lineLens = []int{255, 256, 257, 1023, 1024, 4094, 4095, 4096, 4097, 8190, 8191, 8192, 12285, 16383, 16384, 65535, 65536, 65537, 131070}
+
 func genLine(t *sim.Tape) []byte {
+	if t.Draw(16, "longline") == 15 {
+		b := make([]byte, lineLens[t.Draw(len(lineLens), "longlinelen")])
+		off := t.Draw(200, "pat")
+		for i := range b {
+			b[i] = byte(32 + (i*7+off)%200)
+		}
+		return b
+	}
 	n := t.Draw(6, "linelen")
 	b := make([]byte, 0, n)
 	for i := 0; i < n; i++ {
@@ -439,7 +458,7 @@ func init() {
 	register(&Check{
 		ID: "C02", Bubble: false, Run: runC02,
 		Runs:   map[string]int{"quick": 6000, "thorough": 200000},
-		Rule:   "a case is one (value sequence, read partition) pair: every 2-way split and the all-1-byte delivery of each generated stream <= 4 KiB plus 4 seeded k-way partitions biased to structural offsets; for streams with bulks of 1 KiB..128 KiB every split within [-20,+4] bytes of each power-of-two offset of the payload; every split is also delivered through a bufio.Reader (16-byte and default buffer) or a reader that also reports Len() in front of the chunking reader with the returned messages inspected only after the whole stream was parsed (a parsed value must not change when the parser reads on), end of stream arriving alone or together with the last bytes; deliveries with 1..3 empty reads (0 bytes, no error) in front of every data read; distinct = distinct (stream, partition) hashes; non-trivial = stream longer than 4 bytes",
+		Rule:   "a case is one (value sequence, read partition) pair: every 2-way split and the all-1-byte delivery of each generated stream <= 4 KiB plus 4 seeded k-way partitions biased to structural offsets; for streams with bulks of 1 KiB..128 KiB every split within [-20,+4] bytes of each power-of-two offset of the payload; every split is also delivered through a bufio.Reader (16-byte and default buffer) or a reader that also reports Len() in front of the chunking reader with the returned messages inspected only after the whole stream was parsed (a parsed value must not change when the parser reads on), end of stream arriving alone or together with the last bytes; one line-framed value in sixteen is 255..131070 bytes long (powers of two +-1 and small multiples of 2^k-1); deliveries with 1..3 empty reads (0 bytes, no error) in front of every data read; distinct = distinct (stream, partition) hashes; non-trivial = stream longer than 4 bytes",
 		Real:   []string{"redis/proto parser (NewParserWithReader, Next)"},
 		Stub:   []string{"transport: scripted io.Reader deciding read sizes and end-of-stream style"},
 		Assume: []string{"readers never return (0, nil)"},
